@@ -7,6 +7,12 @@ buffer.go uses *now* (read off the source by go2lean), and the basic facts about
 namespace RV.Buffer
 open Gen.Buffer
 
+theorem lenGe_eq : ∀ (l : Bytes) (k : Nat), lenGe l k = decide (k ≤ l.length) := by
+  intro l
+  induction l with
+  | nil => intro k; cases k <;> simp [lenGe]
+  | cons a t ih => intro k; cases k <;> simp [lenGe, ih]
+
 theorem be64_length (v : BitVec 64) : (be64 v).length = 8 := rfl
 
 theorem div_chain (n : Nat) :
